@@ -261,15 +261,18 @@ fn worker(sh: Arc<Shared>, t: usize, op: COp, mut h: Handle, forced: bool, round
     (h, results, upgraded)
 }
 
-pub struct Program { pub init: u64, pub ops: Vec<COp>, pub extra_clones: usize }
+pub struct Program { pub init: u64, pub ops: Vec<COp>, pub extra_clones: usize,
+                     /// no subscriber besides those of the program exists (the harness's monitor subscriber is dropped before the threads start):
+                     /// the state's strong count can reach 0 while weak references remain
+                     pub no_monitor: bool }
 
-struct Setup { handles: Vec<Handle>, monitor: Subscriber<u64>, keep: Vec<SharedObservable<u64>>, n_clones: usize, n_subs: usize }
+struct Setup { handles: Vec<Handle>, monitor: Option<Subscriber<u64>>, keep: Vec<SharedObservable<u64>>, n_clones: usize, n_subs: usize }
 fn setup(p: &Program) -> Setup {
     let root = SharedObservable::new(p.init);
     let monitor = root.subscribe_reset();
     let mut handles = vec![];
     let mut n_clones = 0;
-    let mut n_subs = 1;
+    let mut n_subs = if p.no_monitor { 0 } else { 1 };
     for op in &p.ops {
         handles.push(match op {
             COp::Poll { fresh } => { let (f, w) = flag_waker(); n_subs += 1; Handle::Sub(if *fresh { root.subscribe_reset() } else { root.subscribe() }, f, w) }
@@ -282,7 +285,7 @@ fn setup(p: &Program) -> Setup {
     let mut keep = vec![];
     for _ in 0..p.extra_clones { keep.push(root.clone()); n_clones += 1; }
     drop(root);
-    Setup { handles, monitor, keep, n_clones, n_subs }
+    Setup { handles, monitor: if p.no_monitor { None } else { Some(monitor) }, keep, n_clones, n_subs }
 }
 
 /// all maximal schedules of the program (DFS over the ledger): entries are (thread, expected-to-block)
@@ -340,14 +343,22 @@ fn point_name(p: PausePoint) -> &'static str {
 /// final observations and the implementation-side oracles (C02 lost wakeup by re-poll, C03 closed iff no owner, C04 set chain)
 fn finish(sink: &mut Sink, p: &Program, joined: Vec<(Handle, Vec<String>, Option<SharedObservable<u64>>)>, mut st: Setup, emit: bool) {
     let (_mf, mw) = flag_waker();
-    let mres = poll_once(&mut st.monitor, &mw);
-    let closed = mres == "End";
+    // without a monitor: look through an owner that is still alive (a kept clone, an upgraded handle, a thread's own handle)
+    let probe: Option<SharedObservable<u64>> = if st.monitor.is_some() { None } else {
+        st.keep.first().cloned().or_else(|| joined.iter().find_map(|j| j.2.clone())).or_else(|| joined.iter().find_map(|j| if let Handle::Clone(o) = &j.0 { Some(o.clone()) } else { None }))
+    };
+    let mut probe_sub = probe.as_ref().map(|o| o.subscribe_reset());
+    let closed = match (st.monitor.as_mut(), probe_sub.as_mut()) {
+        (Some(m), _) => poll_once(m, &mw) == "End",
+        (None, Some(s)) => poll_once(s, &mw) == "End",
+        (None, None) => true,      // nobody left who could tell: every owner and subscriber is gone
+    };
     let mut owners = st.keep.len();
     let mut woken = vec![];
     let mut prevs: Vec<u64> = vec![];
     let mut written: Vec<u64> = vec![];
     let mut unwoken_pending: Vec<usize> = vec![];
-    let value = st.monitor.get();
+    let value = match (&st.monitor, &probe) { (Some(m), _) => m.get(), (None, Some(o)) => o.get(), (None, None) => u64::MAX };
     // C04: linearizability of the simple calls, checked outright (programs made of set / set_if_not_eq / set_if_hash_not_eq /
     // update / get only, single calls or scripts; a thread's first result belongs to its call / script)
     let simple = |o: &COp| matches!(o, COp::Set(_) | COp::Get | COp::Sne(_) | COp::Shne(_) | COp::Upd(_));
@@ -484,7 +495,11 @@ fn finish(sink: &mut Sink, p: &Program, joined: Vec<(Handle, Vec<String>, Option
     } else if lhs != rhs && !written.is_empty() {
         sink.oracle_fail("C04", &format!("set chain broken: returned previous values {prevs:?} + final {value} vs initial {} + written {written:?}", p.init));
     }
-    if emit { sink.line("cfinal", &format!("value={value} closed={} woken={}", closed as u8, fmt_list(&woken))); }
+    drop(probe_sub); drop(probe);
+    if emit {
+        if value == u64::MAX { sink.line("cfinalq", &format!("closed={} woken={}", closed as u8, fmt_list(&woken))); }
+        else { sink.line("cfinal", &format!("value={value} closed={} woken={}", closed as u8, fmt_list(&woken))); }
+    }
 }
 
 static TIMEOUTS: std::sync::atomic::AtomicUsize = std::sync::atomic::AtomicUsize::new(0);
@@ -588,24 +603,29 @@ fn run_free(sink: &mut Sink, id: &str, p: &Program) {
 pub fn programs() -> Vec<(&'static str, Program, usize)> {
     let pl = |fresh| COp::Poll { fresh };
     vec![
-        ("poll|set", Program { init: 1, ops: vec![pl(false), COp::Set(5)], extra_clones: 0 }, 1),
-        ("pollf|set", Program { init: 1, ops: vec![pl(true), COp::Set(5)], extra_clones: 0 }, 1),
-        ("poll|droplast", Program { init: 1, ops: vec![pl(false), COp::Drop], extra_clones: 0 }, 1),
-        ("drop|drop|poll", Program { init: 1, ops: vec![COp::Drop, COp::Drop, pl(false)], extra_clones: 0 }, 1),
-        ("up|droplast", Program { init: 1, ops: vec![COp::Up, COp::Drop], extra_clones: 0 }, 0),
-        ("up|drop|drop", Program { init: 1, ops: vec![COp::Up, COp::Drop, COp::Drop], extra_clones: 0 }, 0),
-        ("set|set|get", Program { init: 1, ops: vec![COp::Set(5), COp::Set(6), COp::Get], extra_clones: 0 }, 0),
-        ("poll|poll|set", Program { init: 1, ops: vec![pl(false), pl(false), COp::Set(5)], extra_clones: 0 }, 0),
-        ("poll|pollf|set", Program { init: 1, ops: vec![pl(false), pl(true), COp::Set(5)], extra_clones: 0 }, 0),
-        ("poll|set|set", Program { init: 1, ops: vec![pl(false), COp::Set(5), COp::Set(6)], extra_clones: 0 }, 0),
-        ("poll|drop|drop", Program { init: 1, ops: vec![pl(false), COp::Drop, COp::Drop], extra_clones: 0 }, 0),
-        ("pollf|get|set", Program { init: 1, ops: vec![pl(true), COp::Get, COp::Set(7)], extra_clones: 1 }, 0),
-        ("nextnow|set", Program { init: 1, ops: vec![COp::NextNow, COp::Set(5)], extra_clones: 0 }, 0),
-        ("poll|nextnow|set", Program { init: 1, ops: vec![pl(false), COp::NextNow, COp::Set(5)], extra_clones: 0 }, 0),
-        ("poll|sne|sne", Program { init: 1, ops: vec![pl(false), COp::Sne(7), COp::Sne(7)], extra_clones: 0 }, 1),
-        ("poll|sne.eq|set", Program { init: 1, ops: vec![pl(false), COp::Sne(1), COp::Set(1)], extra_clones: 0 }, 0),
-        ("upd|upd|get", Program { init: 1, ops: vec![COp::Upd(3), COp::Upd(4), COp::Get], extra_clones: 0 }, 0),
-        ("poll|upd|nextnow", Program { init: 1, ops: vec![pl(false), COp::Upd(2), COp::NextNow], extra_clones: 0 }, 1),
+        ("poll|set", Program { init: 1, ops: vec![pl(false), COp::Set(5)], extra_clones: 0, no_monitor: false }, 1),
+        ("pollf|set", Program { init: 1, ops: vec![pl(true), COp::Set(5)], extra_clones: 0, no_monitor: false }, 1),
+        ("poll|droplast", Program { init: 1, ops: vec![pl(false), COp::Drop], extra_clones: 0, no_monitor: false }, 1),
+        ("drop|drop|poll", Program { init: 1, ops: vec![COp::Drop, COp::Drop, pl(false)], extra_clones: 0, no_monitor: false }, 1),
+        ("up|droplast", Program { init: 1, ops: vec![COp::Up, COp::Drop], extra_clones: 0, no_monitor: false }, 0),
+        ("up|drop|drop", Program { init: 1, ops: vec![COp::Up, COp::Drop, COp::Drop], extra_clones: 0, no_monitor: false }, 0),
+        ("set|set|get", Program { init: 1, ops: vec![COp::Set(5), COp::Set(6), COp::Get], extra_clones: 0, no_monitor: false }, 0),
+        ("poll|poll|set", Program { init: 1, ops: vec![pl(false), pl(false), COp::Set(5)], extra_clones: 0, no_monitor: false }, 0),
+        ("poll|pollf|set", Program { init: 1, ops: vec![pl(false), pl(true), COp::Set(5)], extra_clones: 0, no_monitor: false }, 0),
+        ("poll|set|set", Program { init: 1, ops: vec![pl(false), COp::Set(5), COp::Set(6)], extra_clones: 0, no_monitor: false }, 0),
+        ("poll|drop|drop", Program { init: 1, ops: vec![pl(false), COp::Drop, COp::Drop], extra_clones: 0, no_monitor: false }, 0),
+        ("pollf|get|set", Program { init: 1, ops: vec![pl(true), COp::Get, COp::Set(7)], extra_clones: 1, no_monitor: false }, 0),
+        ("nextnow|set", Program { init: 1, ops: vec![COp::NextNow, COp::Set(5)], extra_clones: 0, no_monitor: false }, 0),
+        ("poll|nextnow|set", Program { init: 1, ops: vec![pl(false), COp::NextNow, COp::Set(5)], extra_clones: 0, no_monitor: false }, 0),
+        ("poll|sne|sne", Program { init: 1, ops: vec![pl(false), COp::Sne(7), COp::Sne(7)], extra_clones: 0, no_monitor: false }, 1),
+        ("poll|sne.eq|set", Program { init: 1, ops: vec![pl(false), COp::Sne(1), COp::Set(1)], extra_clones: 0, no_monitor: false }, 0),
+        ("upd|upd|get", Program { init: 1, ops: vec![COp::Upd(3), COp::Upd(4), COp::Get], extra_clones: 0, no_monitor: false }, 0),
+        ("poll|upd|nextnow", Program { init: 1, ops: vec![pl(false), COp::Upd(2), COp::NextNow], extra_clones: 0, no_monitor: false }, 1),
+        // no subscriber at all: the state's strong count reaches 0 with weak references alive (upgrade must fail at its first step)
+        ("nomon:up|droplast", Program { init: 1, ops: vec![COp::Up, COp::Drop], extra_clones: 0, no_monitor: true }, 0),
+        ("nomon:up|up|droplast", Program { init: 1, ops: vec![COp::Up, COp::Up, COp::Drop], extra_clones: 0, no_monitor: true }, 0),
+        ("nomon:up|drop|drop", Program { init: 1, ops: vec![COp::Up, COp::Drop, COp::Drop], extra_clones: 0, no_monitor: true }, 0),
+        ("nomon:up|drop|set", Program { init: 1, ops: vec![COp::Up, COp::Drop, COp::Set(4)], extra_clones: 0, no_monitor: true }, 0),
     ]
 }
 
@@ -613,29 +633,29 @@ pub fn programs() -> Vec<(&'static str, Program, usize)> {
 pub fn free_programs() -> Vec<(&'static str, Program)> {
     let pl = |fresh| COp::Poll { fresh };
     vec![
-        ("drop|drop", Program { init: 1, ops: vec![COp::Drop, COp::Drop], extra_clones: 0 }),
-        ("drop|drop|drop", Program { init: 1, ops: vec![COp::Drop, COp::Drop, COp::Drop], extra_clones: 0 }),
-        ("poll|droplast.free", Program { init: 1, ops: vec![pl(false), COp::Drop], extra_clones: 0 }),
-        ("poll|poll|droplast", Program { init: 1, ops: vec![pl(false), pl(false), COp::Drop], extra_clones: 0 }),
-        ("nextnow|set|set", Program { init: 1, ops: vec![COp::NextNow, COp::Set(5), COp::Set(6)], extra_clones: 0 }),
-        ("sne|sne", Program { init: 1, ops: vec![COp::Sne(7), COp::Sne(7)], extra_clones: 0 }),
-        ("sne|sne|sne", Program { init: 1, ops: vec![COp::Sne(7), COp::Sne(7), COp::Sne(7)], extra_clones: 0 }),
-        ("sne|set|poll", Program { init: 1, ops: vec![COp::Sne(7), COp::Set(7), pl(false)], extra_clones: 0 }),
-        ("pollf|set|set.free", Program { init: 1, ops: vec![pl(true), COp::Set(5), COp::Set(6)], extra_clones: 0 }),
-        ("poll|set|churn|churn", Program { init: 1, ops: vec![pl(false), COp::Set(5), COp::Churn(40), COp::Churn(40)], extra_clones: 0 }),
-        ("poll|setseq|subchurn|churn", Program { init: 0, ops: vec![pl(false), COp::SetSeq(30), COp::SubChurn(60), COp::Churn(60)], extra_clones: 0 }),
-        ("setpoll|churn|churn|subchurn", Program { init: 0, ops: vec![COp::SetPoll(1500), COp::Churn(1500), COp::Churn(1500), COp::SubChurn(1500)], extra_clones: 0 }),
-        ("holdwrite|subpoll", Program { init: 1, ops: vec![COp::HoldWrite, COp::SubPoll], extra_clones: 0 }),
-        ("holdwrite|subpoll|subpoll", Program { init: 1, ops: vec![COp::HoldWrite, COp::SubPoll, COp::SubPoll], extra_clones: 0 }),
-        ("updpoll|churn|churn|churn", Program { init: 0, ops: vec![COp::UpdPoll(1500), COp::Churn(1500), COp::Churn(1500), COp::Churn(1500)], extra_clones: 0 }),
-        ("shne|shne", Program { init: 1, ops: vec![COp::Shne(7), COp::Shne(7)], extra_clones: 0 }),
-        ("shne|shne|sne", Program { init: 1, ops: vec![COp::Shne(7), COp::Shne(7), COp::Sne(7)], extra_clones: 0 }),
-        ("nextrefs|setseq", Program { init: 0, ops: vec![COp::NextRefs { until: 300 }, COp::SetSeq(300)], extra_clones: 0 }),
+        ("drop|drop", Program { init: 1, ops: vec![COp::Drop, COp::Drop], extra_clones: 0, no_monitor: false }),
+        ("drop|drop|drop", Program { init: 1, ops: vec![COp::Drop, COp::Drop, COp::Drop], extra_clones: 0, no_monitor: false }),
+        ("poll|droplast.free", Program { init: 1, ops: vec![pl(false), COp::Drop], extra_clones: 0, no_monitor: false }),
+        ("poll|poll|droplast", Program { init: 1, ops: vec![pl(false), pl(false), COp::Drop], extra_clones: 0, no_monitor: false }),
+        ("nextnow|set|set", Program { init: 1, ops: vec![COp::NextNow, COp::Set(5), COp::Set(6)], extra_clones: 0, no_monitor: false }),
+        ("sne|sne", Program { init: 1, ops: vec![COp::Sne(7), COp::Sne(7)], extra_clones: 0, no_monitor: false }),
+        ("sne|sne|sne", Program { init: 1, ops: vec![COp::Sne(7), COp::Sne(7), COp::Sne(7)], extra_clones: 0, no_monitor: false }),
+        ("sne|set|poll", Program { init: 1, ops: vec![COp::Sne(7), COp::Set(7), pl(false)], extra_clones: 0, no_monitor: false }),
+        ("pollf|set|set.free", Program { init: 1, ops: vec![pl(true), COp::Set(5), COp::Set(6)], extra_clones: 0, no_monitor: false }),
+        ("poll|set|churn|churn", Program { init: 1, ops: vec![pl(false), COp::Set(5), COp::Churn(40), COp::Churn(40)], extra_clones: 0, no_monitor: false }),
+        ("poll|setseq|subchurn|churn", Program { init: 0, ops: vec![pl(false), COp::SetSeq(30), COp::SubChurn(60), COp::Churn(60)], extra_clones: 0, no_monitor: false }),
+        ("setpoll|churn|churn|subchurn", Program { init: 0, ops: vec![COp::SetPoll(1500), COp::Churn(1500), COp::Churn(1500), COp::SubChurn(1500)], extra_clones: 0, no_monitor: false }),
+        ("holdwrite|subpoll", Program { init: 1, ops: vec![COp::HoldWrite, COp::SubPoll], extra_clones: 0, no_monitor: false }),
+        ("holdwrite|subpoll|subpoll", Program { init: 1, ops: vec![COp::HoldWrite, COp::SubPoll, COp::SubPoll], extra_clones: 0, no_monitor: false }),
+        ("updpoll|churn|churn|churn", Program { init: 0, ops: vec![COp::UpdPoll(1500), COp::Churn(1500), COp::Churn(1500), COp::Churn(1500)], extra_clones: 0, no_monitor: false }),
+        ("shne|shne", Program { init: 1, ops: vec![COp::Shne(7), COp::Shne(7)], extra_clones: 0, no_monitor: false }),
+        ("shne|shne|sne", Program { init: 1, ops: vec![COp::Shne(7), COp::Shne(7), COp::Sne(7)], extra_clones: 0, no_monitor: false }),
+        ("nextrefs|setseq", Program { init: 0, ops: vec![COp::NextRefs { until: 300 }, COp::SetSeq(300)], extra_clones: 0, no_monitor: false }),
         // scripts: several calls per thread, judged by the linearizability oracle alone
-        ("script.shne-upd-shne|script.get", Program { init: 1, ops: vec![COp::Script(vec![COp::Shne(5), COp::Upd(2), COp::Shne(5), COp::Get]), COp::Script(vec![COp::Get, COp::Get, COp::Get])], extra_clones: 0 }),
-        ("script.set-shne-upd-shne|script.upd-get", Program { init: 1, ops: vec![COp::Script(vec![COp::Set(3), COp::Shne(3), COp::Upd(1), COp::Shne(3), COp::Shne(4)]), COp::Script(vec![COp::Upd(10), COp::Get])], extra_clones: 0 }),
-        ("script.sne-upd-sne|script.shne-get|get", Program { init: 1, ops: vec![COp::Script(vec![COp::Sne(4), COp::Upd(1), COp::Sne(4), COp::Get]), COp::Script(vec![COp::Shne(9), COp::Get]), COp::Get], extra_clones: 0 }),
-        ("script.set-get|script.set-get|script.upd-sne", Program { init: 0, ops: vec![COp::Script(vec![COp::Set(1), COp::Get, COp::Set(2), COp::Get]), COp::Script(vec![COp::Set(3), COp::Get]), COp::Script(vec![COp::Upd(100), COp::Sne(2), COp::Get])], extra_clones: 0 }),
+        ("script.shne-upd-shne|script.get", Program { init: 1, ops: vec![COp::Script(vec![COp::Shne(5), COp::Upd(2), COp::Shne(5), COp::Get]), COp::Script(vec![COp::Get, COp::Get, COp::Get])], extra_clones: 0, no_monitor: false }),
+        ("script.set-shne-upd-shne|script.upd-get", Program { init: 1, ops: vec![COp::Script(vec![COp::Set(3), COp::Shne(3), COp::Upd(1), COp::Shne(3), COp::Shne(4)]), COp::Script(vec![COp::Upd(10), COp::Get])], extra_clones: 0, no_monitor: false }),
+        ("script.sne-upd-sne|script.shne-get|get", Program { init: 1, ops: vec![COp::Script(vec![COp::Sne(4), COp::Upd(1), COp::Sne(4), COp::Get]), COp::Script(vec![COp::Shne(9), COp::Get]), COp::Get], extra_clones: 0, no_monitor: false }),
+        ("script.set-get|script.set-get|script.upd-sne", Program { init: 0, ops: vec![COp::Script(vec![COp::Set(1), COp::Get, COp::Set(2), COp::Get]), COp::Script(vec![COp::Set(3), COp::Get]), COp::Script(vec![COp::Upd(100), COp::Sne(2), COp::Get])], extra_clones: 0, no_monitor: false }),
     ]
 }
 
